@@ -317,3 +317,9 @@ pub mod verif_hooks {
 pub mod verif_hooks_interactive {
   pub use crate::print::verif_hooks_interactive::*;
 }
+
+/// verification hooks of the rule-test runner (`sg test`)
+#[cfg(feature = "verif-hooks")]
+pub mod verif_hooks_verify {
+  pub use crate::verify::verif_hooks::*;
+}
